@@ -148,9 +148,9 @@ func (s *Sym) ev(env *Env, e Expr) TV {
 		c := env.child()
 		var decl []string
 		for _, v := range x.Vars {
-			so := SpecSort(v.Type)
+			so, gt := s.P.specType(v.Type)
 			n := q("qv:" + v.Name)
-			c.vars[v.Name] = TV{T: n, S: so}
+			c.vars[v.Name] = TV{T: n, S: so, GT: gt}
 			decl = append(decl, fmt.Sprintf("(%s %s)", n, so))
 		}
 		body := s.ev(c, x.Body)
@@ -187,8 +187,8 @@ func (s *Sym) evIdent(env *Env, name string) TV {
 		return v
 	}
 	if g, ok := s.P.Specs.Ghost[name]; ok {
-		so := SpecSort(g.Sort)
-		return TV{T: s.getMap(env.st, "H:"+name, so), S: so}
+		so, gt := s.P.specType(g.Sort)
+		return TV{T: s.getMap(env.st, "H:"+name, so), S: so, GT: gt}
 	}
 	if sf, ok := s.P.Specs.Spec[name]; ok && len(sf.Params) == 0 {
 		return s.applySpec(env, sf, nil)
@@ -659,8 +659,13 @@ func (s *Sym) evMethodCall(env *Env, x ECall) TV {
 		name = name[:i]
 	}
 	var key string
-	if _, isI := recv.GT.Underlying().(*types.Interface); isI {
+	if it, isI := recv.GT.Underlying().(*types.Interface); isI {
 		key = typeShort(recv.GT) + "." + name
+		for i := 0; i < it.NumMethods(); i++ {
+			if it.Method(i).Name() == name {
+				key = IfaceMethodKey(recv.GT, it.Method(i))
+			}
+		}
 	} else if n := namedOf(recv.GT); n != nil {
 		key = typeShort(n) + "." + name
 	}
@@ -692,10 +697,10 @@ func (s *Sym) applySpec(env *Env, sf *SpecFunc, args []TV) TV {
 		}
 		return s.ev(c, sf.Body)
 	}
-	ret := SpecSort(sf.Ret)
+	ret, retGT := s.P.specType(sf.Ret)
 	var as []string
 	for i, p := range sf.Params {
-		want := SpecSort(p.Type)
+		want, _ := s.P.specType(p.Type)
 		a := args[i]
 		if a.S == "Nil" {
 			a = TV{T: zeroOf(want), S: want}
@@ -711,13 +716,14 @@ func (s *Sym) applySpec(env *Env, sf *SpecFunc, args []TV) TV {
 	if sf.Body == nil {
 		var ps []string
 		for _, p := range sf.Params {
-			ps = append(ps, SpecSort(p.Type))
+			so, _ := s.P.specType(p.Type)
+			ps = append(ps, so)
 		}
 		f := s.declareFun("spec:"+sf.Name, ps, ret)
 		if len(as) == 0 {
-			return TV{T: f, S: ret}
+			return TV{T: f, S: ret, GT: retGT}
 		}
-		return TV{T: fmt.Sprintf("(%s %s)", f, strings.Join(as, " ")), S: ret}
+		return TV{T: fmt.Sprintf("(%s %s)", f, strings.Join(as, " ")), S: ret, GT: retGT}
 	}
 	foot := s.defineSpec(sf)
 	var hs []string
@@ -726,9 +732,9 @@ func (s *Sym) applySpec(env *Env, sf *SpecFunc, args []TV) TV {
 	}
 	all := append(hs, as...)
 	if len(all) == 0 {
-		return TV{T: q("spec:" + sf.Name), S: ret}
+		return TV{T: q("spec:" + sf.Name), S: ret, GT: retGT}
 	}
-	return TV{T: fmt.Sprintf("(%s %s)", q("spec:"+sf.Name), strings.Join(all, " ")), S: ret}
+	return TV{T: fmt.Sprintf("(%s %s)", q("spec:"+sf.Name), strings.Join(all, " ")), S: ret, GT: retGT}
 }
 
 // defineSpec emits the definition of a spec function (once) and returns its heap footprint.
@@ -742,13 +748,14 @@ func (s *Sym) defineSpec(sf *SpecFunc) []string {
 	}
 	s.specBusy[sf.Name] = true
 	defer func() { s.specBusy[sf.Name] = false }()
-	ret := SpecSort(sf.Ret)
+	ret, _ := s.P.specType(sf.Ret)
 	mkEnv := func(rec *State) *Env {
 		env := s.newEnv(nil)
 		env.st = rec
 		env.old = rec
 		for _, p := range sf.Params {
-			env.vars[p.Name] = TV{T: q("sp:" + p.Name), S: SpecSort(p.Type)}
+			so, gt := s.P.specType(p.Type)
+			env.vars[p.Name] = TV{T: q("sp:" + p.Name), S: so, GT: gt}
 		}
 		return env
 	}
@@ -781,7 +788,8 @@ func (s *Sym) defineSpec(sf *SpecFunc) []string {
 		params = append(params, fmt.Sprintf("(%s %s)", q("hp:"+m), s.mapSort[m]))
 	}
 	for _, p := range sf.Params {
-		params = append(params, fmt.Sprintf("(%s %s)", q("sp:"+p.Name), SpecSort(p.Type)))
+		so, _ := s.P.specType(p.Type)
+		params = append(params, fmt.Sprintf("(%s %s)", q("sp:"+p.Name), so))
 	}
 	b := body
 	if b.S == "Int" && ret == "Real" {
